@@ -210,7 +210,7 @@ def loadState (env : Env σ) (group : Bytes) (fallback : Fallback)
         | [], acc => pure acc
         | (t, pos) :: r, acc =>
           match topicRef as t with
-          | none => if pos.any (fun po => po.2 ≠ -1) then M.panic "consumer/state.rs:220 expect non-assigned topic" else ins r acc
+          | none => ins r acc      -- offsets for a topic that is not assigned are ignored
           | some tr => ins r (pos.foldl (fun acc (p, o) =>
               match consumedOf o with
               | some co => assocSet acc ⟨tr, p⟩ ⟨co, false⟩
@@ -297,9 +297,25 @@ def modCons (f : Consumer → Consumer) : CoM σ Unit := M.modify fun w => { w w
 def getCons : CoM σ Consumer := fun w => (w, .ok w.cons)
 
 /-- first partition error in response order, if any (`p.data()?`) -/
+def partErr (p : FetchPartition) : Option Int :=
+  match p.data with | .error c => some c | .ok _ => none
+
 def firstError (resps : List FetchResponse) : Option Int :=
-  (resps.flatMap fun r => r.topics.flatMap fun t => t.partitions).findSome? fun p =>
-    match p.data with | .error c => some c | .ok _ => none
+  (resps.flatMap fun r => r.topics.flatMap fun t => t.partitions).findSome? partErr
+
+/-- what fails one topic of a response before any fetch state is touched: a topic that is not assigned, then per partition
+    its error code or its not being among the fetched partitions (consumer/mod.rs, the loop in front of the book-keeping) -/
+def preScanTopic (c : Consumer) (t : FetchTopic) : Option Err :=
+  match topicRef c.assignments t.topic with
+  | none => some (.kafka 3)
+  | some tr => t.partitions.findSome? fun p =>
+    match p.data with
+    | .error code => some (.kafka code)
+    | .ok _ => if (assocGet c.fetchOffsets (⟨tr, p.partition⟩ : TP)).isSome then none else some (.kafka 3)
+
+/-- first failure in response order, if any -/
+def preScan (c : Consumer) (resps : List FetchResponse) : Option Err :=
+  (resps.flatMap fun r => r.topics).findSome? (preScanTopic c)
 
 /-- book-keeping for one partition of a response (consumer/mod.rs:316-392) -/
 def processPartition (normalMax : Int) (nQueried : Nat) (single : Bool) (c : Consumer) (tr : Nat) (p : FetchPartition) :
@@ -343,8 +359,8 @@ def processResponses (nQueried : Nat) (resps : List FetchResponse) : CoM σ Poll
   let c := w.cons
   let single := c.fetchOffsets.length = 1
   let normalMax := c.client.cfg.fetchMaxBytes
-  match firstError resps with
-  | some code => (w, .err (.kafka code))
+  match preScan c resps with
+  | some e => (w, .err e)
   | none =>
     let parts := resps.flatMap fun r => r.topics.flatMap fun t => t.partitions.map fun p => (t.topic, p)
     match processAll normalMax nQueried single parts c false with
